@@ -329,6 +329,7 @@ func runC18(c *Ctx) {
 	if !RaceBuilt {
 		c.Inconclusive("the checking binary was not built with -race: only output equality is decided")
 	}
+	runC18Order(c)
 	rounds := c.N(6, 40)
 	var clock int64
 	overlaps, ops := int64(0), int64(0)
@@ -496,7 +497,7 @@ func firstDiff(a, b string) string {
 
 func init() {
 	Register(&Monitor{ID: "C18", Run: func(c *Ctx) {
-		c.Rule = "rounds of N goroutines released by a barrier, each running an independent mix of 15 operation kinds over deliberately shared objects (struct types incl. a fresh type first used concurrently, SharedSymbolTables, a Catalog, one local symbol table, the system table) and over package-level state reached from private objects (binary timestamps with per-call offsets, Unmarshal calls that fail followed by calls that succeed, deeply nested values marshalled at the same time) under GOMAXPROCS 1/2/4/16, with yields inside the harness's io wrappers; binary built with -race. Oracles: zero race-detector reports with ion-go frames (counted from the log files), and every operation's output byte-equal to the same operation run alone. Non-trivial: a round with >= 2 goroutines and measured overlap on shared objects; distinct by round configuration."
+		c.Rule = "rounds of N goroutines released by a barrier, each running an independent mix of 15 operation kinds over deliberately shared objects (struct types incl. a fresh type first used concurrently, SharedSymbolTables, a Catalog, one local symbol table, the system table) and over package-level state reached from private objects (binary timestamps with per-call offsets, Unmarshal calls that fail followed by calls that succeed, deeply nested values marshalled at the same time) under GOMAXPROCS 1/2/4/16, with yields inside the harness's io wrappers; binary built with -race. Before the rounds, first-use-order trials: two calls on a Go type nobody has used (annotation wrappers and structs made with reflect.StructOf, declared twin types with a pointer-receiver MarshalIon), made by two goroutines strictly one after the other, in both orders on twin types; each call has to give what it gives as the first call on its type. Oracles: zero race-detector reports with ion-go frames (counted from the log files), and every operation's output byte-equal to the same operation run alone. Non-trivial: a round with >= 2 goroutines and measured overlap on shared objects; distinct by round configuration."
 		c.Assume("the race detector only sees races that the executed schedule makes adjacent: held on the rounds executed is what is claimed")
 		runC18(c)
 	}})
